@@ -19,7 +19,8 @@ import abacusnbody.data.compaso_halo_catalog as chc
 ID = 'C18'
 BOUNDS = {
     'quick': 'all 12 caps, each with one ring it = 4*cap mod 11 (every ring 0..10 occurs); pairwise distinct cap signatures; in-ring cell ir in [0, 2 it] and azimuth bin in [0, 45) symbolic integers '
-             '(so every valid code of those (cap, ring) families); obligations: unit minor/middle/major, pairwise orthogonality, middle = minor x major',
+             '(so every valid code of those (cap, ring) families); obligations: unit minor/middle/major, pairwise orthogonality, middle = minor x major'
+             '; also: numpy uint16 array semantics with wrap monitor',
     'thorough': 'all 12 caps x all 11 rings: every one of the 65340 valid codes belongs to exactly one family',
 }
 OUTSIDE = 'Distinctness is decided only between caps (pairwise different signatures of the major axis); NOT decided (not claimed): distinctness of codes within one cap, and that the major axes cover all directions to ~4 degrees -- a ' \
